@@ -417,7 +417,9 @@ class UpdaterModel:
         v = ps[0].value
         adt = eng.find_adt(v[1]) or {}
         names = [f['name'] for f in adt.get('variants', [{}])[0].get('fields', [])] if adt else []
-        fields = dict(zip(names, v[3]))
+        fields = {}
+        for nm_, fv_ in zip(names, v[3]):
+            self.expand_store(fields, nm_, fv_)        # nested private structs: dotted names, as for the stores
         # FSM initial state: Box::<T>::default() with T from the call's type arguments
         init = None
         for ef in ps[0].effects:
